@@ -560,6 +560,8 @@ class Report:
         content.setdefault("tier", self.tier)
         if HARNESS_REBOUND.get(self.pid):  # the binding is heuristic: a verdict reached through it says so
             content.setdefault("harness_rebound", HARNESS_REBOUND[self.pid])
+        if HARNESS_PRUNED.get(self.pid):
+            content.setdefault("harness_pruned", HARNESS_PRUNED[self.pid])
         with open(p, "w") as f:
             json.dump(content, f, indent=1, default=str)
         return p
@@ -589,6 +591,10 @@ class Report:
                 print("NOTE: " + line)
         if HARNESS_PRUNED.get(self.pid):
             cov["harness_pruned"] = HARNESS_PRUNED[self.pid]
+            for r in HARNESS_PRUNED[self.pid]:
+                line = "harness pruned: %s taken out of %s (%s)" % (r["decl"], os.path.relpath(r["file"] or "?", VERIF), "; ".join(r.get("needs") or []))
+                cov["notes"] = cov["notes"] + [line]
+                print("NOTE: " + line)
         ev = {
             "property_id": self.pid, "tier": self.tier, "seed": self.seed, "level": self.level,
             "coverage": cov, "assumptions": assumptions,
